@@ -2,6 +2,8 @@ package c02
 
 import (
 	"fmt"
+	"os"
+	"runtime/debug"
 	"strings"
 
 	"verif/internal/render"
@@ -13,6 +15,9 @@ func Dump(src string) (out string) {
 	defer func() {
 		if r := recover(); r != nil {
 			out = sb.String() + fmt.Sprintf("PANIC: %v\n", r)
+			if os.Getenv("C02_STACK") != "" {
+				out += string(debug.Stack())
+			}
 		}
 	}()
 	res, err := render.Render(render.Options{HTML: src, Engine: "pango", PageBound: 150, FontConfig: fontConfig()})
